@@ -262,6 +262,9 @@ func decideC06(c c06Case) ev.Verdict {
 	if rich {
 		labels = append(labels, "report-with-several-traces-or-subresults")
 	}
+	if msg := canaryChanged(); msg != "" {
+		return ev.Violation("c06-canary-changed", "after this case: %s", msg)
+	}
 	return ev.Verdict{OK: true, NonTrivial: rich, Labels: labels}
 }
 
